@@ -56,7 +56,7 @@ type msgRec struct {
 	Err     string `json:"err,omitempty"`
 	CmdID   uint32 `json:"cmd,omitempty"`
 	// filled by the oracle
-	FrameSeq int64 `json:"frame_seq,omitempty"`
+	FrameSeq  int64 `json:"frame_seq,omitempty"`
 	delivered int
 }
 
